@@ -350,6 +350,23 @@ which sees a construct first and hands everything it does not recognise to Fn):
   a for loop whose body rebinds its loop variable gets a fresh one; str(self) = the translated __str__; text % (a, b, ..) = py_fmt_ints;
   s.split("\n") = py_str_split_nl, s.strip() = py_str_strip, s.split(None, 2)[2] = py_str_field3 (Model/Ieee.v split_nl / strip /
   third_field), `a in b` and truth of text as for bytes.
+SRCG (class FnG, a subclass of FnE, units SRCG_UNITS; all code in the block `SRCG` at the end of this file; symbols in
+Model/SrcPreludeG.v; the text generated for every other unit is untouched):
+* netaddr/ip/iana.py -> pysrc_iana_gen.v (C19: _within_bounds, query).  IANA_INFO is a table symbol: a Section variable
+  `IANA_INFO : string -> list irow` of the generated file (the module-level name must be bound once, to a dict literal of empty
+  dicts; `IANA_INFO['K']` needs a literal key of that literal); a row (Model/Iana.v irow) is one dictionary item, key object and
+  record: `for a, b in _dict_items(IANA_INFO['K']): body` (compat._dict_items checked to be `lambda x: list(x.items())`) is
+  rewritten by SrcgPrepare to `for a__b__N in __g_iana_items('K'): a = __g_item_key(..); b = __g_item_value(..); body` -- a (type
+  `ikey`) and b (type `irec`) are the same row.  `hasattr(x, 'name')` on an `ikey` splits into the three classes a key object can
+  have (SrcPreludeG.py_ikey_view: IKNet = an IPNetwork object, IKRange = an IPRange (refined operand ORng), IKAddr = an
+  IPAddress (version, value)); inside an arm `hasattr` on a BaseIP object is decided from the parsed class (a property / method /
+  class attribute found through the bases; every class on the way must have a literal __slots__ that does not list the name and no
+  __getattr__), a decided branch that returns is not followed by the rest (the final `raise Exception` of _within_bounds is dead).
+  `x in y` / `x == y` / `x != y` on names bound to BaseIP objects = the translated __contains__ / __eq__ / __ne__ of y's / x's
+  class on the other one as operand; `x.m(..)` on an IPAddress object = the translated method; an IPAddress object handed to a
+  translated function is its pair.  A local first bound by `d = {}` is a dict of lists (type `sdict` = association list in
+  insertion order): `d.setdefault('k', [])` = py_sd_setdefault, `d['k'].append(e)` = py_sd_append (KeyError), rewritten to
+  assignments of d before translation (the names __g_* are the translator's).
 """
 import ast
 import os
@@ -7613,3 +7630,271 @@ def assigned_names(stmts):
         if x not in out:
             out.append(x)
     return out
+
+
+# ==== SRCG: the remaining small functions (netaddr/ip/iana.py query / _within_bounds, ...) ==========================================
+# Units of SRCG_UNITS only, read by class FnG (a subclass of FnE registered through FN_CLASS); the text generated for every
+# other unit is untouched.  Readings: docstring paragraph SRCG.  Symbols: Model/SrcPreludeG.v.
+SRCG_UNITS = [
+    # C19: the IANA lookup.  `ikey` = a key object of an IANA_INFO dictionary together with its record (Model/Iana.v irow: the key is
+    # an IPNetwork, an IPRange or an IPAddress object -- DictUpdater.update makes nothing else); IANA_INFO is a Section variable of
+    # the generated file (a table symbol: dictionary name -> its rows in insertion order; the VALUES are regenerated data,
+    # harness/gen/iana.py -> Gen/iana_gen.v)
+    ("netaddr/ip/iana.py", "pysrc_iana_gen.v", "iana_", " Base.PyStr Model.Iana Model.SrcPreludeSRCE Model.SrcPreludeG",
+     [(None, "_within_bounds", {"ip": "obj", "ip_range": "ikey"}), (None, "query", {"ip_addr": "obj"})]),
+]
+UNITS = UNITS + SRCG_UNITS
+FILES = FILES + tuple(u[1] for u in SRCG_UNITS)
+SRCG_OUT = tuple(u[1] for u in SRCG_UNITS)
+SRCG_TYPES = {"ikey": "irow", "irec": "irow", "sdict": "sdict"}
+COQTY.update(SRCG_TYPES)
+SRCG_RESERVED = set("irow ikeyview IKNet IKRange IKAddr py_ikey_view sdict py_sd_new py_sd_setdefault py_sd_append IANA_INFO "
+                    "py_truthy".split())
+UNIT_PREAMBLE["pysrc_iana_gen.v"] = (
+    "(* IANA_INFO[name] for the four dictionaries the module creates: the rows (key object, record) in insertion order *)\n"
+    "Section WithTable.\nVariable IANA_INFO : string -> list irow.\n")
+UNIT_POSTAMBLE["pysrc_iana_gen.v"] = "\nEnd WithTable.\n"
+_is_value_before_SRCG = is_value
+
+
+def is_value(t):
+    return t in SRCG_TYPES or _is_value_before_SRCG(t)
+
+
+def srcg_pseudo(name, args, at):
+    return ast.copy_location(ast.Call(func=ast.copy_location(ast.Name(id=name, ctx=ast.Load()), at), args=args, keywords=[]), at)
+
+
+def srcg_compat_dict_items():
+    """is netaddr.compat._dict_items (the Python 3 binding, the first in the file) `lambda x: list(x.items())`?"""
+    fn = "netaddr/compat.py"
+    tree = ast.parse(open(os.path.join(REPO, fn), encoding="utf-8").read())
+    binds = [n for n in ast.walk(tree) if isinstance(n, ast.Assign) and any(isinstance(t, ast.Name) and t.id == "_dict_items" for t in n.targets)]
+    other = [n for n in ast.walk(tree) if (isinstance(n, (ast.FunctionDef, ast.ClassDef)) and n.name == "_dict_items")
+             or (isinstance(n, ast.alias) and (n.asname or n.name) == "_dict_items")]
+    b = binds[0] if binds else None
+    ok = (b is not None and not other and len(b.targets) == 1 and isinstance(b.value, ast.Lambda) and len(b.value.args.args) == 1
+          and not b.value.args.defaults and ast.dump(b.value.body) == ast.dump(ast.parse("list(%s.items())" % b.value.args.args[0].arg, mode="eval").body))
+    if not ok:
+        bad(b, "compat._dict_items is not `lambda x: list(x.items())` the way the translator assumes", fn)
+    return True
+
+
+class SrcgPrepare(ast.NodeTransformer):
+    """rewrites of a function of an SRCG unit into statements the translator knows (the names __g_* are the translator's):
+    `d = {}` -> d = __g_sd_new();  `d.setdefault('k', [])` -> d = __g_sd_setdefault(d, 'k');  `d['k'].append(e)` -> d = __g_sd_append(d, 'k', e)
+    (d a local declared `sdict` by its first binding `d = {}`);  `for a, b in _dict_items(IANA_INFO['K']): body` ->
+    `for a__b in __g_iana_items('K'): a = __g_item_key(a__b); b = __g_item_value(a__b); body`"""
+
+    def __init__(self, fn, f):
+        self.fn, self.nitems = fn, 0
+        self.sdicts = {st.targets[0].id for st in ast.walk(f) if isinstance(st, ast.Assign) and len(st.targets) == 1
+                       and isinstance(st.targets[0], ast.Name) and isinstance(st.value, ast.Dict) and not st.value.keys}
+
+    def visit_Assign(self, st):
+        if (len(st.targets) == 1 and isinstance(st.targets[0], ast.Name) and st.targets[0].id in self.sdicts and isinstance(st.value, ast.Dict)
+                and not st.value.keys):
+            st.value = srcg_pseudo("__g_sd_new", [], st.value)
+            return st
+        return self.generic_visit(st)
+
+    def visit_Expr(self, st):
+        v = st.value
+        if (isinstance(v, ast.Call) and isinstance(v.func, ast.Attribute) and not v.keywords and isinstance(v.func.value, ast.Name)
+                and v.func.value.id in self.sdicts and v.func.attr == "setdefault" and len(v.args) == 2 and isinstance(v.args[1], ast.List)
+                and not v.args[1].elts):
+            d = v.func.value
+            return ast.copy_location(ast.Assign(targets=[ast.copy_location(ast.Name(id=d.id, ctx=ast.Store()), d)],
+                                                value=srcg_pseudo("__g_sd_setdefault", [d, v.args[0]], v)), st)
+        if (isinstance(v, ast.Call) and isinstance(v.func, ast.Attribute) and not v.keywords and v.func.attr == "append" and len(v.args) == 1
+                and isinstance(v.func.value, ast.Subscript) and isinstance(v.func.value.value, ast.Name) and v.func.value.value.id in self.sdicts
+                and not isinstance(v.func.value.slice, ast.Slice)):
+            d = v.func.value.value
+            return ast.copy_location(ast.Assign(targets=[ast.copy_location(ast.Name(id=d.id, ctx=ast.Store()), d)],
+                                                value=srcg_pseudo("__g_sd_append", [d, v.func.value.slice, v.args[0]], v)), st)
+        return self.generic_visit(st)
+
+    def visit_For(self, st):
+        st = self.generic_visit(st)
+        it, tg = st.iter, st.target
+        if (isinstance(it, ast.Call) and dotted(it.func) == "_dict_items" and len(it.args) == 1 and not it.keywords
+                and isinstance(it.args[0], ast.Subscript) and dotted(it.args[0].value) == "IANA_INFO"
+                and isinstance(tg, ast.Tuple) and len(tg.elts) == 2 and all(isinstance(x, ast.Name) for x in tg.elts)):
+            if self.fn.mod.imports.get("_dict_items") != "netaddr.compat._dict_items" or not srcg_compat_dict_items():
+                bad(st, "_dict_items is not netaddr.compat._dict_items")
+            self.nitems += 1             # one name per loop (a later loop may reuse the two targets)
+            item = "%s__%s__%d" % (tg.elts[0].id, tg.elts[1].id, self.nitems)
+            load = lambda: ast.copy_location(ast.Name(id=item, ctx=ast.Load()), tg)
+            pre = [ast.copy_location(ast.Assign(targets=[ast.copy_location(ast.Name(id=x.id, ctx=ast.Store()), x)],
+                                                value=srcg_pseudo(f, [load()], x)), x)
+                   for x, f in zip(tg.elts, ("__g_item_key", "__g_item_value"))]
+            st.target = ast.copy_location(ast.Name(id=item, ctx=ast.Store()), tg)
+            st.iter = srcg_pseudo("__g_iana_items", [it.args[0].slice], it)
+            st.body = pre + st.body
+        return st
+
+
+class FnG(FnE):
+    """the constructs of the SRCG units (docstring paragraph SRCG); everything else goes to FnE / Fn unchanged"""
+
+    def prepare(self, f):
+        import copy
+        f = super().prepare(f)
+        if any(isinstance(n, ast.Name) and n.id.startswith("__g_") for n in ast.walk(f)):
+            bad(f, "a name starting with __g_ (reserved for the translator)")
+        return ast.fix_missing_locations(SrcgPrepare(self, f).visit(copy.deepcopy(f)))
+
+    def coqname(self, node, name):
+        if name in SRCG_RESERVED:
+            name_ = name + "_"
+            if self.used.setdefault(name_, name) != name:
+                bad(node, "identifier clash on %s" % name_)
+            return name_
+        return super().coqname(node, name)
+
+    # ---- which attributes do the objects of a netaddr.ip class have (classes with __slots__ through all their bases)?
+    def class_hasattr(self, node, cls, attr):
+        mod = self.tr.modof(cls)
+        if cls not in mod.classes:
+            bad(node, "hasattr on an object of class %s, which is not a class of netaddr/ip/__init__.py" % cls)
+        slots = set()
+        for c in mod.ancestors(cls):
+            if c == "object":
+                continue
+            cd = mod.classes.get(c)
+            ss = [st for st in (cd.body if cd else []) if isinstance(st, ast.Assign) and any(dotted(t) == "__slots__" for t in st.targets)]
+            if cd is None or len(ss) != 1 or not isinstance(ss[0].value, (ast.Tuple, ast.List)) or not all(
+                    isinstance(x, ast.Constant) and isinstance(x.value, str) for x in ss[0].value.elts):
+                bad(node, "class %s has no literal __slots__ (its instances may have any attribute)" % c)
+            slots |= {x.value for x in ss[0].value.elts}
+            if any(isinstance(st, ast.FunctionDef) and st.name in ("__getattr__", "__getattribute__") for st in cd.body):
+                bad(node, "class %s defines __getattr__" % c)
+        if attr in slots:
+            bad(node, "hasattr(<%s object>, %r): a slot, set or not" % (cls, attr))
+        if mod.lookup(cls, attr) is not None:
+            return True
+        for c in mod.ancestors(cls):            # any other class-level binding of the name
+            cd = mod.classes.get(c)
+            if cd is not None and any(isinstance(n, ast.Name) and n.id == attr and isinstance(n.ctx, ast.Store) for st in cd.body
+                                      if not isinstance(st, ast.FunctionDef) for n in ast.walk(st)):
+                return True
+        return False
+
+    def class_of_var(self, x, env):
+        ty = env.get(x, ("",))[0]
+        if ty == "net":
+            return "IPNetwork"
+        if ty == "obj":
+            return "IPAddress"
+        if isinstance(ty, tuple) and ty[0] == "opnd" and ty[1] in KINDCLASS:
+            return KINDCLASS[ty[1]]
+        return None
+
+    def if_(self, s, rest, env, k, after):
+        t = s.test
+        if (isinstance(t, ast.Call) and dotted(t.func) == "hasattr" and "hasattr" not in env and not self.mod.toplevel("hasattr")
+                and len(t.args) == 2 and not t.keywords and isinstance(t.args[0], ast.Name) and isinstance(t.args[1], ast.Constant)
+                and isinstance(t.args[1].value, str)):
+            x = t.args[0].id
+            if env.get(x, ("",))[0] == "ikey":
+                # the key object of an IANA_INFO row: an IPNetwork, an IPRange or an IPAddress object (SrcPreludeG.py_ikey_view);
+                # inside each arm the test (and every later hasattr / in / ==) is decided by the class
+                hn, hv, hs, he, ha = [self.fresh() for _ in range(5)]
+                nenv, renv, aenv = dict(env), dict(env), dict(env)
+                nenv[x], renv[x], aenv[x] = ("net", hn), (("opnd", "ORng", {"ver": hv, "s": hs, "e": he}), None), ("obj", self.objvar(ha))
+                return ("omatch", "(py_ikey_view %s)" % env[x][1], [
+                    ("IKNet", [hn], self.block([s] + rest, nenv, k, after)), ("IKRange", [hv, hs, he], self.block([s] + rest, renv, k, after)),
+                    ("IKAddr", [ha], self.block([s] + rest, aenv, k, after))])
+            cls = self.class_of_var(x, env)
+            if cls is not None:
+                yes = self.class_hasattr(s, cls, t.args[1].value)
+                return self.block((s.body if yes else s.orelse) + rest, env, k, after)
+        return super().if_(s, rest, env, k, after)
+
+    def opnd_of(self, node, ty, t):
+        """the operand term of an IPAddress / IPNetwork / IPRange valued expression"""
+        if ty == "obj":
+            return "(OAddr %s %s)" % (t[0], t[2])
+        if ty == "net":
+            return "(ONet (nver %s) (nval %s) (nplen %s))" % (t, t, t)
+        if isinstance(ty, tuple) and ty[0] == "opnd" and ty[1] in KINDCLASS:
+            return "(%s %s)" % (ty[1], " ".join(ty[2][f] for f in dict(OPERAND)[ty[1]]))
+        bad(node, "%s where an IPAddress, IPNetwork or IPRange object is needed" % show(ty))
+
+    def state_of(self, node, ty, t):
+        """(class, state terms) of such an expression as the receiver of a translated method"""
+        if ty == "obj":
+            return "IPAddress", " ".join(t[:3])
+        if ty == "net":
+            return "IPNetwork", self.net_state(t)
+        if isinstance(ty, tuple) and ty[0] == "opnd" and ty[1] in KINDCLASS:
+            fl = ty[2]
+            return KINDCLASS[ty[1]], " ".join([fl["ver"], "(width %s)" % fl["ver"]] + [fl[x] for x in dict(OPERAND)[ty[1]][1:]])
+        bad(node, "%s where an IPAddress, IPNetwork or IPRange object is needed" % show(ty))
+
+    def objname(self, node, env):
+        """(type, term) of a NAME bound to a BaseIP object (also a refined operand, which Fn.rhs does not answer), else None"""
+        if isinstance(node, ast.Name) and node.id in env and self.class_of_var(node.id, env) is not None:
+            return env[node.id]
+        return None
+
+    def rhs(self, node, env):
+        if isinstance(node, ast.Compare) and len(node.ops) == 1 and isinstance(node.ops[0], (ast.In, ast.Eq, ast.NotEq)):
+            l, r = self.objname(node.left, env), self.objname(node.comparators[0], env)
+            if l is not None and r is not None and isinstance(node.ops[0], ast.In) and r[0] != "obj":
+                cls, state = self.state_of(node, *r)         # x in y: the translated __contains__ of y's class
+                return self.generated(node, cls, "__contains__", state, [("operand", self.opnd_of(node, *l))])
+            if l is not None and r is not None and not isinstance(node.ops[0], ast.In):
+                cls, state = self.state_of(node, *l)         # x == y / x != y: the translated __eq__ / __ne__ of x's class
+                return self.generated(node, cls, "__eq__" if isinstance(node.ops[0], ast.Eq) else "__ne__", state,
+                                      [("operand", self.opnd_of(node, *r))])
+        return super().rhs(node, env)
+
+    def iana_key(self, node):
+        """the literal key K of IANA_INFO[K]: one of the keys of the module-level dict literal IANA_INFO (bound once, each value {})"""
+        ds = [a for a in self.mod.tree.body for n in ast.walk(a) if isinstance(n, ast.Name) and n.id == "IANA_INFO" and isinstance(n.ctx, ast.Store)]
+        v = ds[0].value if len(ds) == 1 and isinstance(ds[0], ast.Assign) and len(ds[0].targets) == 1 else None
+        if not (isinstance(v, ast.Dict) and all(isinstance(kk, ast.Constant) and isinstance(kk.value, str) for kk in v.keys)
+                and all(isinstance(x, ast.Dict) and not x.keys for x in v.values)):
+            bad(node, "IANA_INFO is not bound once, at top level, to a dict literal of empty dicts")
+        if not (isinstance(node, ast.Constant) and isinstance(node.value, str) and node.value in [kk.value for kk in v.keys]):
+            bad(node, "IANA_INFO[..] with something other than one of its literal keys")
+        return srcc_strlit(node.value, node)
+
+    def call(self, node, env):
+        f = node.func
+        name = f.id if isinstance(f, ast.Name) else None
+        if name == "__g_sd_new":
+            return ("sdict", "py_sd_new")
+        if name in ("__g_sd_setdefault", "__g_sd_append"):
+            (td, d), (tk, kk) = self.ex(node.args[0], env), self.ex(node.args[1], env)
+            if td != "sdict" or tk != "str":
+                bad(node, "setdefault / append on %s with a key of kind %s" % (show(td), show(tk)))
+            if name == "__g_sd_setdefault":                 # d.setdefault(k, []): a new empty list under k unless k is present
+                return ("sdict", "(py_sd_setdefault %s %s)" % (d, kk))
+            tx, x = self.ex(node.args[2], env)               # d[k].append(x): KeyError without k
+            if tx != "irec":
+                bad(node, "d[k].append(x) for x of kind %s" % show(tx))
+            return ("out", "sdict", "(py_sd_append %s %s %s)" % (d, kk, x))
+        if name == "__g_iana_items":
+            return (("list", Cell("ikey")), "(IANA_INFO %s)" % self.iana_key(node.args[0]))
+        if name in ("__g_item_key", "__g_item_value"):       # the two components of a dictionary item: the same row, seen as key / as record
+            ty, t = self.ex(node.args[0], env)
+            if ty != "ikey":
+                bad(node, "dictionary item of kind %s" % show(ty))
+            return ("ikey" if name == "__g_item_key" else "irec", t)
+        if (isinstance(f, ast.Attribute) and isinstance(f.value, ast.Name) and f.value.id != "self" and not node.keywords
+                and env.get(f.value.id, ("",))[0] == "obj"):
+            r = self.tr.modof("IPAddress").lookup("IPAddress", f.attr)      # x.m(..) for an IPAddress object x: the translated method
+            if r and not r[2]:
+                return self.generated(node, "IPAddress", f.attr, " ".join(env[f.value.id][1][:3]), [("int", self.int_(a, env)) for a in node.args])
+        return super().call(node, env)
+
+    def callfn(self, node, name, env):
+        if node.keywords:
+            bad(node, "keyword arguments in a call of %s" % name)
+        args = [self.ex(x, env) for x in node.args]          # an IPAddress object is handed over as its pair
+        return self.generated(node, None, name, "", [(ty, t[3]) if ty == "obj" else (ty, t) for ty, t in args])
+
+
+FN_CLASS.update({u[1]: FnG for u in SRCG_UNITS})
